@@ -10,7 +10,7 @@
 #include <sys/wait.h>
 #include <sys/resource.h>
 
-typedef struct { int codec; uint64_t k, r, L; int64_t m, N1, seed; int role; } pt_t;
+typedef struct { int codec; uint64_t k, r, L; int64_t m, N1, seed; int role; int pre; /* codec 2: field size announced first through of_set_control_parameter (0 = not) */ } pt_t;
 
 static const char *cn(int codec) { return codec == 1 ? "1" : codec == 2 ? "2" : "3"; }
 
@@ -105,10 +105,20 @@ static int child_body(const pt_t *p, int want_cycle, rng_t *rng)
 {
 	of_session_t *s = NULL; char pb[32];
 	if (of_create_codec_instance(&s, (of_codec_id_t)p->codec, (of_codec_type_t)p->role, 0) != OF_STATUS_OK || !s) return 11;
+	if (p->pre) { UINT16 fs = (UINT16)p->pre; if (of_set_control_parameter(s, OF_RS_CTRL_SET_FIELD_SIZE, &fs, sizeof fs) != OF_STATUS_OK) { of_release_codec_instance(s); return 12; } }
 	fill_params(p, pb);
 	of_status_t st = of_set_fec_parameters(s, (of_parameters_t *)pb);
+	int cyc = 0;
+	if (st == OF_STATUS_OK && p->pre && p->k && p->r && p->L && p->L <= 4096 && p->k + p->r <= 255) {
+		/* the very session that was configured after the pre-call must be usable (the generic cycle uses fresh sessions) */
+		uint32_t k = (uint32_t)p->k, n = (uint32_t)(p->k + p->r), L = (uint32_t)p->L; void *tab[256];
+		for (uint32_t i = 0; i < n; i++) { tab[i] = calloc(1, L); if (i < k) memset(tab[i], (int)(i * 7 + 1), L); }
+		if (p->role & OF_ENCODER) for (uint32_t i = k; i < n && !cyc; i++) if (of_build_repair_symbol(s, tab, i) != OF_STATUS_OK) cyc = 1;
+		for (uint32_t i = 0; i < n; i++) free(tab[i]);
+	}
 	of_release_codec_instance(s);
 	if (st != OF_STATUS_OK) return 10;
+	if (cyc) return 21;
 	if (want_cycle) { int ph = usability_cycle(p, rng); if (ph) return 20 + ph; }
 	return 0;
 }
@@ -140,7 +150,7 @@ static void point(const pt_t *p, rng_t *rng)
 {
 	char lim[160]; int nv = violated(p, lim, sizeof lim);
 	static const char *rolename[] = { "?", "enc", "dec", "both" };
-	if (!rep_case("params codec=%d k=%llu r=%llu L=%llu m=%lld N1=%lld seed=%lld role=%s expect=%s%s", p->codec, (unsigned long long)p->k, (unsigned long long)p->r,
+	if (!rep_case("params codec=%d pre-field-size=%d k=%llu r=%llu L=%llu m=%lld N1=%lld seed=%lld role=%s expect=%s%s", p->codec, p->pre, (unsigned long long)p->k, (unsigned long long)p->r,
 		      (unsigned long long)p->L, (long long)p->m, (long long)p->N1, (long long)p->seed, rolename[p->role], nv ? "reject:" : "accept", lim)) return;
 	g_pts++;
 	/* usability cycle only inside the limits and with sizes that can be exercised */
@@ -164,6 +174,7 @@ static void point(const pt_t *p, rng_t *rng)
 		if (nv) snprintf(key, sizeof key, "crash-outside:codec=%s:limit=%s", cn(p->codec), lim); else snprintf(key, sizeof key, "crash-inside:codec=%s", cn(p->codec));
 		rep_viol(key, "sanitizer / fault-handler abort in the child (exit %d)", rc);
 	} else if (rc == 11) { snprintf(key, sizeof key, "create-failed:codec=%s", cn(p->codec)); rep_viol(key, "of_create_codec_instance failed"); }
+	else if (rc == 12) { snprintf(key, sizeof key, "reject-inside:codec=%s:set-field-size", cn(p->codec)); rep_viol(key, "of_set_control_parameter(OF_RS_CTRL_SET_FIELD_SIZE, %d) failed", p->pre); }
 	else if (nv && rc != 10) { snprintf(key, sizeof key, "accept-outside:codec=%s:limit=%s", cn(p->codec), lim); rep_viol(key, "of_set_fec_parameters returned OF_STATUS_OK for a configuration outside the advertised limits"); }
 	else if (!nv && rc == 10 && p->L > (1u << 20)) rep_count("huge_symbol_length_rejected_tolerated_as_out_of_memory", 1);
 	else if (!nv && rc == 10) { snprintf(key, sizeof key, "reject-inside:codec=%s", cn(p->codec)); rep_viol(key, "of_set_fec_parameters rejected a configuration inside the advertised limits"); }
@@ -201,7 +212,7 @@ static int nonnominal(const pt_t *p, const pt_t *nom)
 
 static void grid(int codec, int m, long *unit, int maxnon)
 {
-	pt_t nom = { codec, codec == 3 ? 20 : 5, codec == 3 ? 10 : 3, 16, m, codec == 3 ? 3 : 0, codec == 3 ? 1 : 0, OF_DECODER };
+	pt_t nom = { codec, codec == 3 ? 20 : 5, codec == 3 ? 10 : 3, 16, m, codec == 3 ? 3 : 0, codec == 3 ? 1 : 0, OF_DECODER, 0 };
 	uint64_t ks[16], rs[24]; int nk = vals_k(codec, m ? m : 8, ks);
 	/* add the nominal values to the sets */
 	ks[nk++] = nom.k;
@@ -227,7 +238,9 @@ static void grid(int codec, int m, long *unit, int maxnon)
 					/* all three roles at every point would triple the forks: roles rotate, boundary points get all */
 					int boundary = nonnominal(&p, &nom) <= 1;
 					if (!boundary && ((ik + ir + (int)il + im + i1 + is) % 3) + 1 != role) continue;
-					p.role = role; point(&p, &rng);
+					p.role = role; p.pre = 0; point(&p, &rng);
+					/* codec 2: the same point with the field size announced first, the same and the other one */
+					if (codec == 2 && (boundary || ((ik + ir + (int)il + im) % 4) == 0)) { p.pre = 4; point(&p, &rng); p.pre = 8; point(&p, &rng); p.pre = 0; }
 				}
 			}
 		}
